@@ -718,7 +718,13 @@ func (x *Exec) frameSet(name string, c *Contract) []string {
 	var out []string
 	for _, part := range strings.Fields(strings.ReplaceAll(name, ",", " ")) {
 		if fs, ok := x.prog.specs.FrameSets[part]; ok {
-			out = append(out, fs...)
+			for _, f := range fs {
+				if _, nested := x.prog.specs.FrameSets[f]; nested && f != part {
+					out = append(out, x.frameSet(f, c)...)
+				} else {
+					out = append(out, f)
+				}
+			}
 		} else {
 			out = append(out, part)
 		}
